@@ -297,7 +297,7 @@ one_case (int m, int kind, int pli, int ep)
   memcpy (phrase, ph, pl + 1);
   memset (ph, 0, sizeof ph);
   const char *setting = alt_setting ? alt_setting : vh_cheap[m][0];
-  if (kind == K_METHOD_FAIL)
+  if (kind == K_METHOD_FAIL && !alt_setting)
     setting = method_fail_setting (m);
   else if (kind == K_BADCHAR)
     setting = "$1$sa:lt";
@@ -580,7 +580,7 @@ histories (void)
 static void
 salt_variant (int w, int L, int pk)
 {
-  static char ss[120], rpo[48];
+  static char ss[520], rpo[48];
   static const int wm[4] = { M_SCRYPT, M_YESCRYPT, M_GOST, M_SHA1 };
   static const char *const head[4] = { "$7$2/..../....", "$y$j/.$", "$gy$j/.$", "$sha1$20$" };
   if ((w == 1 || w == 2) && L % 4 == 1)
@@ -597,7 +597,8 @@ salt_variant (int w, int L, int pk)
   snprintf (rpo, sizeof rpo, "A:%d:%d:%d", w, L, pk);
   alt_setting = ss;
   rp_override = rpo;
-  one_case (wm[w], K_SUCCESS, pk == 0 ? 2 : pk == 1 ? 5 : 7, (L + pk) % 3);
+  /* L >= 330: past what any of these methods accepts - a failure reported from inside the method, late */
+  one_case (wm[w], L >= 330 ? K_METHOD_FAIL : K_SUCCESS, pk == 0 ? 2 : pk == 1 ? 5 : 7, (L + pk) % 3);
   alt_setting = 0;
   rp_override = 0;
   vh_stat ("salt_length_variants", 1);
@@ -659,6 +660,11 @@ main (int argc, char **argv)
               }
           }
   for (int L = 40; L <= 70 && !vh_expired (); L++)
+    for (int w = 0; w < 4; w++)
+      for (int pk = 0; pk < 3; pk++)
+        if (vh_mine (idx++))
+          salt_variant (w, L, pk);
+  for (int L = 330; L <= 480 && !vh_expired (); L += 50)
     for (int w = 0; w < 4; w++)
       for (int pk = 0; pk < 3; pk++)
         if (vh_mine (idx++))
